@@ -235,6 +235,13 @@ def binop(it, op, a, b, node=None):
         return OpaqueFloat(type(op).__name__, (a, b))
     if is_intlike(a) and is_intlike(b):
         return int_binop(it, op, a, b, node)
+    if isinstance(op, ast.Add) and (type(a).__name__ == 'FBytes' or type(b).__name__ == 'FBytes'):
+        from . import stream
+        if isinstance(a, bytes) and len(a) == 0:
+            return b
+        if isinstance(b, bytes) and len(b) == 0:
+            return a
+        return stream.fbytes_concat(it, a, b)
     if isinstance(op, ast.Add):
         if is_strlike(a) and is_strlike(b):
             return str_concat(a, b)
@@ -316,6 +323,14 @@ def values_equal(it, a, b, node=None):
         return z3.And(o.present, _zt(values_equal(it, o.val, x, node)))
     if a is None or b is None:
         return a is None and b is None
+    if type(a).__name__ == 'FBytes' or type(b).__name__ == 'FBytes':
+        f, o = (a, b) if type(a).__name__ == 'FBytes' else (b, a)
+        if isinstance(o, bytes):
+            return f.equals_const(o)
+        if type(o).__name__ == 'FBytes' and o.file is f.file:
+            if f.start.eq(o.start) and f.length.eq(o.length):
+                return True
+        raise Unsupported('comparison of file slices')
     if is_intlike(a) and is_intlike(b):
         if isinstance(a, (int,)) and isinstance(b, (int,)):
             return a == b
@@ -501,7 +516,7 @@ def contains(it, container, x, node=None):
                 cs.append(z3.And(_zt(g), _zt(e)))
             return z3.Or(cs) if cs else False
     elif isinstance(container, PDict):
-        if isinstance(x, (SInt, SStr, SEnum)):
+        if isinstance(x, (SInt, SStr, SEnum)) or type(x).__name__ == 'FBytes':
             cs = []
             for k in container.keys():
                 e = values_equal(it, k, x, node)
